@@ -26,6 +26,7 @@ type HRun struct {
 	Labels   []string // assertion labels that must be evaluated at least once
 	Unwind   int
 	Solver   string
+	Witness  int // path witnesses replayed natively per run (0: 6 quick / 24 thorough)
 }
 
 type CheckDef struct {
@@ -87,6 +88,7 @@ func checkCmd(args []string) int {
 	noEvidence := fs.Bool("no-evidence", false, "do not write evidence (scratch trials)")
 	only := fs.String("only", "", "run only the harness function with this name")
 	forceSolver := fs.String("solver", "", "use this solver (cvc5, z3, z3-new) for every run instead of the registered one (cross-checking)")
+	workName := fs.String("work", "work", "name of the scratch directory under /verif (separate concurrent runs of one property)")
 	fs.Parse(args[1:])
 	id := args[0]
 	if *tier == "" {
@@ -160,6 +162,9 @@ func checkCmd(args []string) int {
 			if *tier == "thorough" {
 				nw = 24
 			}
+			if r.Witness > 0 {
+				nw = r.Witness
+			}
 			ex := &symex.Explorer{P: P, Name: fmt.Sprintf("%s.%s%v", filepath.Base(r.Pkg), r.Func, as), Entry: fn, IntArgs: as, Workers: *workers, Witness: nw}
 			rep := ex.Run()
 			reps = append(reps, rep)
@@ -209,7 +214,7 @@ func checkCmd(args []string) int {
 	// ---- native validation of path witnesses (encoder validation) and replay of counterexamples
 	validated, mismatches := 0, []string{}
 	if len(witnesses) > 0 {
-		res, err := runNative(*repo, *harness, witnesses, filepath.Join(verifDir, "work", id+"-witness.json"))
+		res, err := runNative(*repo, *harness, witnesses, filepath.Join(verifDir, *workName, id+"-witness.json"))
 		if err != nil {
 			inconclusive = append(inconclusive, "native witness run failed: "+err.Error())
 		} else {
@@ -244,7 +249,7 @@ func checkCmd(args []string) int {
 	knownSeen := map[string]bool{}
 	if len(entries) > 0 {
 		os.MkdirAll(filepath.Join(verifDir, "replays"), 0o755)
-		res, err := runNative(*repo, *harness, entries, filepath.Join(verifDir, "work", id+"-cex.json"))
+		res, err := runNative(*repo, *harness, entries, filepath.Join(verifDir, *workName, id+"-cex.json"))
 		if err != nil {
 			inconclusive = append(inconclusive, "native replay run failed: "+err.Error())
 		} else {
